@@ -49,8 +49,14 @@ def run(pid, tier, seed, execs, mc, np=1, header=None, extra_cov=None, assumptio
     # pass 2: the accepted traces against the property itself; whatever is rejected now is explained by a
     # recorded deviation (it was accepted with the deviations on) and is reported as that known finding
     accset = set(acc)
-    a2, r2_, s2 = vlib.validate_traces([(x, res[x]["events"]) for x in byx if x in accset], MODULE, CFG,
+    # (executions written to exercise one recorded finding are validated on their own so that each finding is seen)
+    special = [x for x in byx if x in accset and not x.startswith("w")]
+    a2, r2_, s2 = vlib.validate_traces([(x, res[x]["events"]) for x in byx if x in accset and x.startswith("w")], MODULE, CFG,
                                        header=kw["header"], tag=pid.lower() + "-faithful", max_rejects=8)
+    for x in special:
+        a3, r3, s3 = vlib.validate_traces([(x, res[x]["events"])], MODULE, CFG, header=kw["header"], tag=pid.lower() + "-faithful-" + x, max_rejects=1)
+        r2_ += r3
+        s2 += s3
     states += s2
     dev_seen = {}
     for x, idx, tail in r2_:
